@@ -31,9 +31,11 @@ class LocalSimulationRunner(NamedTuple):
         :return: the final simulation state and dispatcher state
         """
 
+        # count the steps from the payload's own clock: a payload that has already been advanced (for instance by
+        # co-simulation calls) is run up to end_time, not for the whole configured interval once more
         time_steps = tqdm(
             range(
-                int(runner_payload.e.config.sim.start_time),
+                int(runner_payload.s.sim_time),
                 int(runner_payload.e.config.sim.end_time),
                 runner_payload.e.config.sim.timestep_duration_seconds,
             )
